@@ -19,6 +19,7 @@ import unicodedata
 from collections.abc import Iterator
 from copy import copy
 from decimal import Decimal, DecimalException, localcontext
+from functools import cmp_to_key
 from string import ascii_letters
 from typing import cast, Optional, Union, NoReturn
 from urllib.parse import urlsplit, quote as urllib_quote
@@ -484,10 +485,9 @@ def evaluate__max_min_functions(self: XPathFunction, context: ta.ContextType = N
         if not values:
             return []
         elif all(isinstance(x, str) for x in values):
-            if to_any_uri:
-                return AnyURI(aggregate_func(
-                    cast(list[str], values)
-                ))
+            # xs:string / xs:anyURI values are ordered by the collation
+            result = aggregate_func(cast(list[str], values), key=cmp_to_key(manager.strcoll))
+            return AnyURI(result) if to_any_uri else result
         elif any(isinstance(x, str) for x in values):
             if any(isinstance(x, ArithmeticProxy) for x in values):
                 raise self.error('FORG0006', "cannot compare strings with numeric data")
@@ -540,7 +540,7 @@ def evaluate__max_min_functions(self: XPathFunction, context: ta.ContextType = N
     else:
         collation = self.get_argument(context, 1, required=True, cls=str)
 
-    with CollationManager(collation, self):
+    with CollationManager(collation, self) as manager:
         try:
             return max_or_min()
         except TypeError as err:
